@@ -1,5 +1,5 @@
 ----------------------------- MODULE MC_Upsert -----------------------------
-(* Bounded design model of Upsert: one state per input.                                           *)
+(* Bounded design model of Upsert: one state per input (and one per table).                       *)
 (*                                                                                                *)
 (*   Inputs == Tables \X Requests \X Options                                                      *)
 (*   Tables    every table of <= MaxRows rows (ids 1..n) whose key cells are k1 \in {1, 2},       *)
@@ -10,7 +10,8 @@
 (*             at most one column with col_values that overwrite a key column ({k1} or {k2, v});  *)
 (*             value lists of different lengths; AddOrUpdateRecord for every one-row request      *)
 (*   Options   on_many \in {first, all, none, other} x update x add x allow_empty_require given   *)
-(*             explicitly, and every combination of "not given" with a non-default value          *)
+(*             explicitly, and the combinations of "not given" with a non-default value           *)
+(*             (on_many \in DefOnMany)                                                            *)
 (*                                                                                                *)
 (* SpecSane: the outcome of the reference under both lookup disciplines (table at the start /     *)
 (* table as it is now) is admitted by Upsert!Clauses, i.e. the relation is satisfiable on every   *)
@@ -18,7 +19,7 @@
 (* harness forms their product (and checks its size against the number of states TLC found) and   *)
 (* runs the real engine on every element.                                                         *)
 EXTENDS Upsert, TLC, Json, IOUtils, SequencesExt, FiniteSetsExt
-CONSTANTS MaxRows, MaxLen, RK1, RK2, CK1, CK2
+CONSTANTS MaxRows, MaxLen, RK1, RK2, CK1, CK2, DefOnMany
 
 RK1Std  == {I(1), I(2), NS(1)}
 RK1Min  == {I(1), NS(1)}
@@ -59,7 +60,7 @@ Requests == UNION {Shapes("bulk", n) : n \in 0..MaxLen} \cup Shapes("single", 1)
 Opts(om, u, a, e) == [on_many |-> om, update |-> u, add |-> a, allow |-> e]
 Options == {Opts(om, u, a, e) : om \in {"first", "all", "none", "other"}, u \in {"T", "F"},
                                 a \in {"T", "F"}, e \in {"T", "F"}} \cup
-           {Opts(om, u, a, e) : om \in {"-", "all"}, u \in {"-", "F"}, a \in {"-", "F"}, e \in {"-", "T"}}
+           {Opts(om, u, a, e) : om \in DefOnMany, u \in {"-", "F"}, a \in {"-", "F"}, e \in {"-", "T"}}
 
 Input(t, q, o) == [kind |-> q.kind, rows |-> t, require |-> q.require, colvals |-> q.colvals, opts |-> o]
 
@@ -67,11 +68,18 @@ ASSUME /\ "OUT_FILE" \in DOMAIN IOEnv
        => JsonSerialize(IOEnv.OUT_FILE, [tables |-> SetToSeq(Tables), requests |-> SetToSeq(Requests),
                                          options |-> SetToSeq(Options)])
 
+\* TLC computes initial states in one thread, successor states in parallel: the initial states fix
+\* the table only (no request yet), one step chooses the request and the options.
 VARIABLE input
-Init == \E t \in Tables, q \in Requests, o \in Options : input = Input(t, q, o)
-Next == UNCHANGED input
-SpecSane == Ok(input, RefObs(input, "start")) /\ Ok(input, RefObs(input, "now"))
+NoRequest(t) == [kind |-> "none", rows |-> t, require |-> <<>>, colvals |-> <<>>,
+                 opts |-> Opts("-", "-", "-", "-")]
+Init == \E t \in Tables : input = NoRequest(t)
+Next == /\ input.kind = "none"
+        /\ \E q \in Requests, o \in Options : input' = Input(input.rows, q, o)
+SpecSane == input.kind = "none" \/
+            (Ok(input, RefObs(input, "start")) /\ Ok(input, RefObs(input, "now")))
 \* the arguments the reference rejects are exactly the four classes of the property
-RejectSane == RefObs(input, "start").rej <=>
-                (BadOnMany(input) \/ EmptyRequire(input) \/ BadLengths(input) \/ DupRequire(input))
+RejectSane == input.kind = "none" \/
+              (RefObs(input, "start").rej <=>
+                 (BadOnMany(input) \/ EmptyRequire(input) \/ BadLengths(input) \/ DupRequire(input)))
 =============================================================================
